@@ -1048,3 +1048,15 @@ func ruleCLIOneWrite(p *Prog, r *Report) {
 func init() {
 	register("C15", "Structural equality of the CLI with the library: (R-CLI-REG) every ecosystem the library defines is registered in run under the constant its own Name() returns and the entry passes that same package's Ecosystem to runEcosystem with its args; 'vers' routes to runVers; dispatch is registry[args[0]](args[1:]); (R-CLI-ARGS) compare/contains/versContains apply the right constructor to the right argument and return the library result unmodified; command words dispatch to their implementations; (R-CLI-FORMAT) success output is built only from %d/%t/%q renderings; (R-CLI-ONEWRITE) every path through run writes exactly one \"%s\\n\" line and nothing else in cmd performs output; exit codes via C06's R-EXIT (re-run here).", ruleCLIReg, ruleCLIArgs, ruleCLIFormat, ruleCLIOneWrite, ruleExit)
 }
+
+// C06's CLI clause ("the CLI turns every failure into a diagnostic and exit status 1") needs every
+// command to reach its answer through the library operations on its arguments: an answer given before an
+// argument has been parsed (a shortcut for identical arguments) reports success for input the library
+// rejects. R-CLI-ARGS of C15 decides that; its obligations are taken over.
+func ruleCLIArgsForC06(p *Prog, r *Report) {
+	runImports(p, r, []importSpec{{"cli", []ruleFn{ruleCLIArgs}, func(rule, key string) bool { return rule == "R-CLI-ARGS" }, map[string]int{"R-CLI-ARGS": 3}}})
+}
+
+func init() {
+	register("C06", "", ruleCLIArgsForC06)
+}
